@@ -218,7 +218,37 @@ def run(ctx):
             if not got['stream'].startswith(part) or len(part) < 30000:
                 if corr_bad is None: corr_bad = dict(file=os.path.relpath(f, common.REPO), prefix_only=True, model_prefix=part[:64].hex(), implementation_prefix=got['stream'][:64].hex())
             os.unlink(p2)
-        # the optional raw dump contains exactly the decoded stream
+        # reading is a function of the file: a second read through the SAME reader / parser object gives the same answer and does not change
+        # what the first one returned (files with extra blocks, since those are accumulated in a list)
+        import copy
+        from replay_unpack.replay_reader import ReplayReader
+        rr = [(i, c) for i, c in enumerate(cases) if c['extra']][::5][:12]
+        model_write_many([(c['ext'], paths[i], c['b0'], c['extra'], c['prefix'], c['zpad']) for i, c in rr])
+        for i, c in rr:
+            r = ReplayReader(paths[i]); a = r.get_replay_data(); a0 = copy.deepcopy((a.game, a.engine_data, a.extra_data, a.decrypted_data))
+            b = r.get_replay_data(); ctx.case(('reread', i))
+            if (b.game, b.engine_data, b.extra_data, b.decrypted_data) != a0 or (a.game, a.engine_data, a.extra_data, a.decrypted_data) != a0:
+                ctx.violation(dict(kind='second-read-differs', ext=c['ext'], file=open(paths[i], 'rb').read().hex(), first=json.dumps(a0[2])[:300],
+                                   second=json.dumps(b.extra_data)[:300], first_after_second=json.dumps(a.extra_data)[:300],
+                                   how='r = ReplayReader(path); a = r.get_replay_data(); b = r.get_replay_data(): b and a must both equal the first answer'))
+                break
+        # the optional raw dump contains exactly the decoded stream - also when the stream cannot be played (empty, garbage, cut inside a packet)
+        from replay_parser import ReplayParser as RP
+        from tools import battle as battle_
+        import random as random_
+        bb, vs_ = battle_.build_wows('13_2_0', random_.Random(3)); good = bb.stream()
+        for name, stream in (('empty', b''), ('garbage', bytes(ctx.rng.randrange(256) for _ in range(301))), ('cut-in-packet', good[:len(good) // 2 + 5]), ('playable', good)):
+            for strict in (False, True):
+                pth = os.path.join(tmp, 'dump-%s.wowsreplay' % name); dmp = os.path.join(tmp, 'dump-%s-%d.bin' % (name, strict))
+                battle_.write_replay(pth, 'wowsreplay', {'clientVersionFromXml': vs_}, stream)
+                try: RP(pth, strict=strict, raw_data_output=dmp).get_info()
+                except Exception: pass
+                ctx.case(('raw-dump', name, strict))
+                got_dump = open(dmp, 'rb').read() if os.path.exists(dmp) else None
+                if got_dump != stream:
+                    ctx.violation(dict(kind='raw-dump', stream_kind=name, strict=strict, stream=stream[:400].hex(), dump=(got_dump[:200].hex() if got_dump is not None else 'no file written'),
+                                       how='a well-formed 13.2.0 container around that stream; ReplayParser(path, strict, raw_data_output=f).get_info(); f must hold the stream'))
+        # ... and on a real recording
         small = [f for f in recordings.list_recordings() if os.path.getsize(f) < 30000][0]
         from replay_parser import ReplayParser
         dump = os.path.join(tmp, 'dump.bin')
